@@ -1956,3 +1956,222 @@ func rulePersistedIndexClamped(c *report.Ctx) {
 		}
 	}
 }
+
+// ruleParsedKeyFixedWidth (C14): a parsed key keeps the fixed-width key bytes of the serialisation.
+func ruleParsedKeyFixedWidth(c *report.Ctx) {
+	p := c.P
+	c.Rule("parsed-key-fixed-width", "NewKeyFromString hands NewExtendedKey the key bytes as sliced from the decoded payload (33 bytes public, 32 bytes private), never a re-encoded integer: big.Int.Bytes() drops leading zero bytes and hardened derivation copies the parent key at a fixed offset", 1)
+	f := fn(c, pkgHD, "", "NewKeyFromString")
+	nek := fn(c, pkgHD, "", "NewExtendedKey")
+	if f == nil || nek == nil {
+		return
+	}
+	for i, s := range calls(f, nek) {
+		key := siteKey(f, "NewExtendedKey-key-arg", i+1)
+		bad := ""
+		var walk func(v ssa.Value, seen map[ssa.Value]bool)
+		walk = func(v ssa.Value, seen map[ssa.Value]bool) {
+			if seen[v] {
+				return
+			}
+			seen[v] = true
+			switch x := v.(type) {
+			case *ssa.Phi:
+				for _, e := range x.Edges {
+					walk(e, seen)
+				}
+			case *ssa.Slice:
+				// fine: a window of the decoded buffer
+			default:
+				bad = p.Desc(v)
+			}
+		}
+		walk(an.CallOf(s).Args[1], map[ssa.Value]bool{})
+		if bad == "" {
+			c.OK(key, "slices of the decoded payload", posOf(c, s))
+		} else {
+			c.Fail(key, "the key material of a parsed extended key is "+bad+", not the fixed-width bytes of the serialisation: a private scalar with leading zero bytes becomes shorter than 32 bytes and every hardened child derived from the parsed key differs from BIP-32", posOf(c, s))
+		}
+	}
+}
+
+// ruleNoAppendToKeyFields (C14): serialisation never appends onto a slice that belongs to a key.
+func ruleNoAppendToKeyFields(c *report.Ctx) {
+	p := c.P
+	c.Rule("no-append-to-key-fields", "no append in hdkeychain has a field of an ExtendedKey as its destination: the fields of a parsed key are windows of one decoded buffer (version has capacity for the whole payload), so appending to one overwrites the key's — and its parent's — fingerprint, chain code and key", 3)
+	ek := p.Type(pkgHD, "ExtendedKey")
+	if ek == nil {
+		c.Lost("hdkeychain.ExtendedKey")
+		return
+	}
+	for _, f := range p.ModFuncs {
+		pk := an.FuncPkg(f)
+		if pk == nil || pk.Path() != pkgHD {
+			continue
+		}
+		n := 0
+		an.Instrs(f, func(in ssa.Instruction) {
+			cc := an.CallOf(in)
+			if cc == nil {
+				return
+			}
+			b, ok := cc.Value.(*ssa.Builtin)
+			if !ok || b.Name() != "append" || len(cc.Args) == 0 {
+				return
+			}
+			n++
+			key := siteKey(f, "append", n)
+			dst := cc.Args[0]
+			for {
+				if sl, isSl := dst.(*ssa.Slice); isSl {
+					dst = sl.X
+					continue
+				}
+				break
+			}
+			isField := false
+			if ld, isLd := dst.(*ssa.UnOp); isLd && ld.Op == token.MUL {
+				if fa, isFA := ld.X.(*ssa.FieldAddr); isFA {
+					if n2 := an.NamedOf(fa.X.Type()); n2 != nil && n2.Obj() == ek.Obj() {
+						isField = true
+					}
+				}
+			}
+			if isField {
+				c.Fail(key, sk(f)+" appends onto "+p.Desc(dst)+": when the key was parsed from a string this writes into the decoded buffer its other fields (and the same fields of keys derived from it) alias, so serialising a child corrupts its parent", posOf(c, in))
+			} else {
+				c.OK(key, "destination is not a key field", posOf(c, in))
+			}
+		})
+	}
+}
+
+// ruleChildNumberRoles (C04): the two child counters are not swapped between their store, fetchChildNum and its callers.
+func ruleChildNumberRoles(c *report.Ctx) {
+	p := c.P
+	c.Rule("child-number-roles", "fetchChildNum returns (internal, external) read under the matching keys, and every caller stores result #0 into an *internal* and result #1 into an *external* field (export → Keystore.HDpath, cache refresh → branchInfo): a swap makes an imported keystore re-derive the wrong number of addresses per branch", 5)
+	f := fn(c, pkgKeystore, "", "fetchChildNum")
+	if f == nil {
+		return
+	}
+	// (1) the return values come from the right keys
+	for _, b := range f.Blocks {
+		r, ok := b.Instrs[len(b.Instrs)-1].(*ssa.Return)
+		if !ok || p.ClassifyReturn(r, nil) == an.RetError {
+			continue
+		}
+		for idx, want := range []string{"internalChildNumName", "externalChildNumName"} {
+			d := p.Desc(an.RetOperand(r, idx))
+			key := sk(f) + ":result#" + itoa(idx)
+			if strings.Contains(d, want) {
+				c.OK(key, "read under "+want, posOf(c, r))
+			} else {
+				c.Fail(key, "result #"+itoa(idx)+" of fetchChildNum is "+d+", not the value stored under "+want, posOf(c, r))
+			}
+		}
+	}
+	// (2) callers
+	for _, g := range p.ModFuncs {
+		for _, s := range calls(g, f) {
+			call, ok := s.(*ssa.Call)
+			if !ok {
+				continue
+			}
+			for _, r := range *call.Referrers() {
+				ex, ok := r.(*ssa.Extract)
+				if !ok || ex.Index > 1 {
+					continue
+				}
+				for _, u := range *ex.Referrers() {
+					st, ok := u.(*ssa.Store)
+					if !ok || st.Val != ssa.Value(ex) {
+						continue
+					}
+					fa, ok := st.Addr.(*ssa.FieldAddr)
+					if !ok {
+						continue
+					}
+					name := derefStructT(fa.X.Type()).Field(fa.Field).Name()
+					ln := strings.ToLower(name)
+					isInt, isExt := strings.Contains(ln, "internal"), strings.Contains(ln, "external")
+					if !isInt && !isExt {
+						continue
+					}
+					key := sk(g) + ":fetchChildNum#" + itoa(ex.Index) + "=>" + name
+					if (ex.Index == 0 && isInt) || (ex.Index == 1 && isExt) {
+						c.OK(key, "role preserved", posOf(c, u))
+					} else {
+						c.Fail(key, sk(g)+" stores result #"+itoa(ex.Index)+" of fetchChildNum (the "+[]string{"internal", "external"}[ex.Index]+" counter) into "+name+": the two branch counters are swapped, so an exported keystore restores fewer receive addresses than were issued and invents change addresses", posOf(c, u))
+					}
+				}
+			}
+		}
+	}
+}
+
+// ruleWipedCacheDropped (C04/C05): a cached private key that is wiped is also removed from the cache.
+func ruleWipedCacheDropped(c *report.Ctx) {
+	p := c.P
+	c.Rule("wiped-cache-dropped", "clearPrivKeys sets to nil every cache field whose key material it wipes (per-address privKey, account key, both branch keys): their presence tests (`!= nil`) are what getPrivKeyBtcec uses to skip re-derivation, so a wiped-but-present entry would sign with a zero scalar", 4)
+	f := fn(c, pkgKeystore, "AddrManager", "clearPrivKeys")
+	if f == nil {
+		return
+	}
+	fields := []string{"privKey", "acctKeyPriv", "externalBranchPriv", "internalBranchPriv"}
+	found := map[string]bool{}
+	an.Instrs(f, func(in ssa.Instruction) {
+		cc := an.CallOf(in)
+		if cc == nil || len(cc.Args) == 0 {
+			return
+		}
+		callee := cc.StaticCallee()
+		if callee == nil {
+			return
+		}
+		k := an.FuncKey(callee)
+		if !(strings.HasSuffix(k, "zero.BigInt") || strings.HasSuffix(k, "ExtendedKey).Zero")) {
+			return
+		}
+		d := p.Desc(cc.Args[0])
+		var field string
+		for _, fl := range fields {
+			if strings.HasSuffix(d, "."+fl) || strings.HasSuffix(d, "."+fl+".D") {
+				field = fl
+			}
+		}
+		if field == "" {
+			return
+		}
+		found[field] = true
+		key := sk(f) + ":wipe=>nil:" + field
+		idx := 0
+		for i, x := range in.Block().Instrs {
+			if x == in {
+				idx = i
+			}
+		}
+		hdr := loopHeaderOf(in.Block())
+		s := &an.Search{P: p, Fn: f,
+			Cut: func(x ssa.Instruction) bool {
+				st, ok := x.(*ssa.Store)
+				if !ok || !an.IsNilConst(st.Val) {
+					return false
+				}
+				fa, ok := st.Addr.(*ssa.FieldAddr)
+				return ok && derefStructT(fa.X.Type()).Field(fa.Field).Name() == field
+			},
+			GoalBlock:  func(b, pred *ssa.BasicBlock) bool { return hdr != nil && b == hdr },
+			GoalReturn: func(r *ssa.Return, pred *ssa.BasicBlock) bool { return true },
+		}
+		if w := s.Run(in.Block(), idx+1, nil); w != nil {
+			c.Fail(key, "clearPrivKeys wipes the key behind "+field+" but leaves the field set: the next signature for that address takes the 'already derived' fast path and signs with a zeroed private key — SignRawTx reports success with a signature that does not verify against the address", posOf(c, in), w...)
+		} else {
+			c.OK(key, "field set to nil after the wipe", posOf(c, in))
+		}
+	})
+	for _, fl := range fields {
+		if !found[fl] {
+			c.Fail(sk(f)+":wipe:"+fl, "anchor lost: clearPrivKeys no longer wipes "+fl, p.Pos(f.Pos()))
+		}
+	}
+}
